@@ -37,3 +37,5 @@ for sd in seeds:
 # leave no replay files from seeded runs behind
 for f in os.listdir(os.path.join(VERIF, "replays")):
     os.remove(os.path.join(VERIF, "replays", f))
+# the checks rewrite evidence/<id>.json on every run; runs against seeded changes must not leave their evidence behind: restore the committed files
+subprocess.run(["git", "-C", VERIF, "checkout", "--", "evidence"], check=False)
